@@ -80,11 +80,11 @@ func vC08Authonly(keys []string, small bool) {
 }
 
 // auth-only allowed_groups constraint equals the reference
-// verif: unwind=8 strlen=8 concretize=4 also=C19
+// verif: unwind=8 strlen=8 concretize=4 also=C19,C01
 func vh_C08_authonly_groups() { vC08Authonly([]string{"allowed_groups"}, false) }
 
 // auth-only allowed_emails constraint equals the reference
-// verif: unwind=8 strlen=8 concretize=4 also=C19
+// verif: unwind=8 strlen=8 concretize=4 also=C19,C01
 func vh_C08_authonly_emails() { vC08Authonly([]string{"allowed_emails"}, false) }
 
 // auth-only allowed_email_domains constraint equals the reference (symbolic domains; thorough tier)
@@ -97,7 +97,7 @@ var vC08DomainVal = regexp.MustCompile(`^\.?[a-z]{1,3}(\.[a-z]{1,2})?(:[0-9]{1,2
 var vC08Email = regexp.MustCompile(`^[a-z]{1,2}(@[a-z.:0-9]{0,6}){0,2}$`)
 
 // all three constraints must hold together: with concrete constraints that each admit / refuse
-// verif: unwind=8 strlen=8 concretize=4 also=C19
+// verif: unwind=8 strlen=8 concretize=4 also=C19,C01
 func vh_C08_authonly_all() {
 	s := vSessionMain("sess")
 	verifAssume(strings.Count(s.Email, "@") <= 3)
@@ -209,7 +209,7 @@ func vh_C20_usermap_race() {
 // the operator's constraints come from the URL of the auth-only subrequest; a request body
 // relayed from the client (POST/PUT/PATCH, urlencoded) that repeats a constrained key never
 // widens the allowed set
-// verif: unwind=8 strlen=8 concretize=4 also=C19
+// verif: unwind=8 strlen=8 concretize=4 also=C19,C01
 func vh_C08_authonly_body() {
 	s := vSessionMain("sess")
 	vWithGroups(s, "sess", 1)
